@@ -133,6 +133,9 @@ def judge(t):
         for p in puts.get(m, []):
             if p.kw.get('data') != c.res[1]:
                 V('C19.3-verbatim', 'text written for borrowed %s is not the borrower\'s text' % m, what='not-verbatim')
+        if s == 'borrowed' and opts.get('writeMibs', True) and not any(p.ok for p in puts.get(m, [])):
+            # "written verbatim under the module's name with status borrowed": the status says the copy was stored
+            V('C19.3-verbatim', 'module %s is reported borrowed but its copy was never handed to the writer successfully' % m, what='borrowed-not-stored', module=m)
     for m, pl in sorted(puts.items()):
         if m in gen_text:
             for p in pl:
